@@ -29,3 +29,8 @@ Definition api_cv_witness_fl (v : val) : val :=
 (* [x; [sect; w2f]; p] -> obliged products (limits lifted) one of whose forms is p  (finding signatures) *)
 Definition api_cv_must_bases_fl (v : val) : val :=
   ofSS (cv_dedup (must_bases_fl (cv_flags (argn 1 v)) (cv_input (argn 0 v)) (getS (argn 2 v)))).
+
+(* [x; [sect; w2f]; peptides] -> [[p; base] ...]  bases of all given alt forms in one pass *)
+Definition api_cv_must_bases_fl_many (v : val) : val :=
+  VL (map (fun pq => VL [ofS (fst pq); ofS (snd pq)])
+          (must_bases_fl_many (cv_flags (argn 1 v)) (cv_input (argn 0 v)) (getSS (argn 2 v)))).
